@@ -54,6 +54,10 @@ def run(run, binfo):
             base = base_case(rules=rules, default=default, rule=rule, creds=creds, target=target,
                              custom=custom, registered=registered, enforce_scope=es,
                              authorize=(rule[0] == 'name' and rng.random() < 0.4))
+            if rng.random() < 0.3:
+                # the same request with the credentials as a RequestContext / its policy-values mapping
+                base['creds'] = {k: v for k, v in creds.items() if k != 'a'}
+                base['creds_as'] = rng.choice(['context', 'policy_values'])
             g = variants(rng, base)
             groups.append((len(cases), len(g)))
             cases += g
